@@ -78,8 +78,9 @@ theorem suggestBody_handed_stored (cfg : Cfg) (hc : cfg.shortDeliveryOk = true) 
     intro k a ha
     obtain ⟨t0, ht0, rfl⟩ := assignRequested_spec w k (pool st) a ha
     exact ⟨rfl, rfl, t0, (List.mem_filter.mp ht0).1, rfl⟩
-  unfold suggestBody
-  simp only [pendingFree_find st hdone w]
+  rw [suggestBody_of_free _ _ _ _ _ (pendingFree_find st hdone w)]
+  unfold suggestRest
+  simp only []
   have e1 : (List.filter (fun t => t.state == TState.active && t.client == w) st.trials) = ownActive st w := rfl
   have e2 : (List.filter (fun x => x.state == TState.requested) st.trials) = pool st := rfl
   simp only [e1, e2]
